@@ -40,6 +40,23 @@ func Witnesses() []*Case {
 	add("floatkey", map[float64]int{1.5: 1})
 	add("floatkey-nil", map[float64]int(nil))
 	add("floatkey-empty", map[float32]int{})
+	add("badkey-omitted", struct {
+		M map[[1]int]int `json:"m,omitempty"`
+		N int
+	}{N: 1})
+	add("badomit-nilslice", []struct {
+		F func() `json:"f,omitempty"`
+	}(nil))
+	add("badkey-nilptr", struct{ P *map[struct{ A int }]int }{})
+	add("quoted-bf", struct {
+		S string `json:"s,string"`
+	}{"\b\f"})
+	add("omitzero-empty-struct", struct {
+		A int
+		Z struct {
+			B struct{} `json:",omitzero"`
+		}
+	}{A: 1})
 	// BitPointerValue sticks to everything below an OP_recurse with pv
 	add("pv-sticky-eface", &[]tygen.Big50{{E: tygen.JP{A: 1}}})
 	add("pv-sticky-map", &[]struct {
@@ -94,6 +111,9 @@ func Witnesses() []*Case {
 	add("tv-err", tygen.TV{S: "!err"})
 	add("tp-ptr", &tygen.TP{S: "q\"q"})
 	add("raw", json.RawMessage(` { "a" : [ 1 , 2 ] } `))
+	for i, t := range []string{" 1 ", "[1, 2]", "{ }", "\t\"a\" ", "[ ]", " null", "\n0", "{\"a\": 1}", "{", "1 2", "01", "[1,]"} {
+		add(fmt.Sprintf("raw-short%d", i), json.RawMessage(t))
+	}
 	add("raw-nil", json.RawMessage(nil))
 	add("raw-bad", json.RawMessage(`{"a":`))
 	add("raw-utf8", json.RawMessage("\"a\xffb\""))
